@@ -151,6 +151,24 @@ func c18corpus(c *mon.Ctx) []c18font {
 					}
 				}
 			}
+			// an empty table right in front of the unread last table: both
+			// are listed with the same offset
+			rawE := addTable(addTable(buf.Bytes(), "gasp", []byte{}), "DSIG", tail)
+			if wf, _ := sfntwalk.Walk(rawE); wf != nil {
+				var last, empty *sfntwalk.Table
+				for i := range wf.Tables {
+					t := &wf.Tables[i]
+					if t.Length > 0 && (last == nil || t.Offset > last.Offset) {
+						last = t
+					}
+					if t.Tag == "gasp" {
+						empty = t
+					}
+				}
+				if last != nil && empty != nil && last.Tag == "DSIG" && empty.Length == 0 && empty.Offset == last.Offset {
+					fonts = append(fonts, c18font{"generated-1-glyf+empty-table-before-the-unread-last-table", fonts[1].f, false, rawE})
+				}
+			}
 			// the same with an empty table listed at the very end of the file
 			// (it occupies no byte): the data before it - a table that is
 			// copied raw - can still be cut short
@@ -530,7 +548,7 @@ func runC18(c *mon.Ctx) {
 	})
 	c.Require("write-fault:Write:refuse", "write-fault:Write:short", "write-fault:WriteTrueTypePDF:short", "write-fault:WriteOpenTypeCFFPDF:short", "write-fault:cff.Font.Write:refuse",
 		"write-success:Write", "read-fault:truncated/ReaderAt", "read-fault:truncated/Reader", "read-fault:failing/ReaderAt", "read-fault:failing/Reader", "read-success:failing/ReaderAt",
-		"read-fault:generated-1-glyf+trailing-unread-table", "read-fault:generated-1-glyf+trailing-empty-table", "read-fault:generated-1-glyf+trailing-unread-table:DSIG", "read-fault:generated-1-glyf+trailing-unread-table:prop")
+		"read-fault:generated-1-glyf+trailing-unread-table", "read-fault:generated-1-glyf+trailing-empty-table", "read-fault:generated-1-glyf+trailing-unread-table:DSIG", "read-fault:generated-1-glyf+trailing-unread-table:prop", "read-fault:generated-1-glyf+empty-table-before-the-unread-last-table")
 	_ = cff.OpMoveTo
 }
 
